@@ -8,7 +8,11 @@ def split_frontmatter(text: str) -> tuple[str, str]:
     rest of the document. If no frontmatter is found, returns an empty string
     and the original text.
     """
-    lines = text.splitlines()
+    # Only "\n" (or "\r\n") ends a line here: splitlines() would also break at form feeds,
+    # U+2028 and other separators, which are ordinary characters inside YAML values.
+    lines = text.replace("\r\n", "\n").split("\n")
+    if lines and lines[-1] == "":
+        lines.pop()
 
     # Skip empty lines at the beginning
     start_idx = 0
